@@ -420,7 +420,7 @@ def oracle_details(sim, rr, out):
     details = (ev.data or {}).get("details")
     if m.skip_decorated is not None:
         reason = (ev.data or {}).get("reason")
-        if kind == "skip" and reason != m.skip_decorated:
+        if kind == "skip" and (reason is None or str(reason) != m.skip_decorated):
             if not (details and "reason" in details and details["reason"]["bytes"].decode("utf8") == m.skip_decorated):
                 out.violate("detail-lost", "decorated-skip-reason", f"reason {reason!r} details {details}")
         return
